@@ -375,7 +375,7 @@ pub fn check_cmd(args: CheckArgs) -> i32 {
     let census: Vec<Census> = census_recs
         .iter()
         .map(|r| match r {
-            Some(r) if r.status == "ran" => Census { class: r.outcome.clone(), reason: r.detail.clone(), n_decisions: r.decisions.len() },
+            Some(r) if r.status == "ran" => Census::from_record(r),
             _ => Census::default(),
         })
         .collect();
